@@ -14,6 +14,7 @@ import PolytuneModel.Proto.OutputTie
 import PolytuneModel.Thm.C10
 import PolytuneModel.Thm.C06C07
 import PolytuneModel.Proto.Triples
+import PolytuneModel.Proto.Validate
 /-! `ptmodel`: one request per line on stdin, one response per line on stdout. -/
 open PolytuneModel PolytuneModel.Buf
 
@@ -164,8 +165,8 @@ def step (st : DState) (line : String) : DState × String :=
     match n.toNat?, leader.toNat?, fuel.toNat? with
     | some n, some l, some f =>
       let su : Server.Setup := ⟨n, l, parseBits outs, parseBits consts⟩
-      let r := Server.report Server.Cfg.pinned su f
-      let r1 := Server.report Server.Cfg.pinned su (f + 1)
+      let r := Server.report Server.Cfg.current su f
+      let r1 := Server.report Server.Cfg.current su (f + 1)
       (st, s!"srvreport reachable={r.1} terminal={r.2.1} bad={r.2.2.1} stuck={r.2.2.2} complete={r1.1 == r.1}")
     | _, _, _ => (st, "bad-op")
   | ["prim", "clmul", a, b] =>
@@ -205,7 +206,7 @@ def step (st : DState) (line : String) : DState × String :=
         | none => (st, "bad-op")
         | some c =>
           let cur := (st.srv.find? (·.1 == id)).map (·.2) |>.getD {}
-          let r := Server.step Server.Cfg.pinned cur c
+          let r := Server.step Server.Cfg.current cur c
           ({ st with srv := (id, r.1) :: st.srv.filter (·.1 != id) }, "kind=" ++ kindName r.1 ++ " eff=" ++ ",".intercalate (r.2.map effName))
   | ["tap", "reset", n] =>
     match n.toNat? with
@@ -235,6 +236,19 @@ def step (st : DState) (line : String) : DState × String :=
       let z := combineZ (fam 2) (fam 5) (fam 3) (dd == "1") 0
       let showS (s : Share) : String := ",".intercalate ((if s.bit then "1" else "0") :: (List.range n).flatMap fun j => [natHex (s.mac j).toNat, natHex (s.key j).toNat])
       (st, "combine " ++ showS x ++ " " ++ showS (get 1) ++ " " ++ showS z)
+    | _, _, _ => (st, "bad-op")
+  | ["combinebucket", n, b, flat, dbits] =>
+    -- flat = 3·b shares of one party (x_0 y_0 z_0 x_1 y_1 z_1 …); dbits = the b-1 public d-values; result = `combineBucket` of C10_bucket
+    match n.toNat?, b.toNat?, parseHexList flat with
+    | some n, some b, some v =>
+      let sh := (sharesOfFlat n v).map OnlineMsgs.shareOfL
+      let fam (k : Nat) : Nat → Share := fun _ => sh.getD k Share.zero
+      let ds := parseBits dbits
+      if b = 0 ∨ sh.size ≠ 3 * b ∨ ds.length ≠ b - 1 then (st, "bad-op") else
+      let rest := (List.range (b - 1)).map fun k => ((fam (3 * (k + 1)), fam (3 * (k + 1) + 1), fam (3 * (k + 1) + 2)), ds.getD k false)
+      let (x, y, z) := combineBucket (fam 0, fam 1, fam 2) rest
+      let showS (s : Share) : String := ",".intercalate ((if s.bit then "1" else "0") :: (List.range n).flatMap fun j => [natHex (s.mac j).toNat, natHex (s.key j).toNat])
+      (st, "combinebucket " ++ showS (x 0) ++ " " ++ showS (y 0) ++ " " ++ showS (z 0))
     | _, _, _ => (st, "bad-op")
   | ["opened", delta, keys, claimed] =>
     -- C07's `opened`: what a party reveals in the third aShare round, from its keys, its global key and the CLAIMED bits of the peers
@@ -272,6 +286,16 @@ def step (st : DState) (line : String) : DState × String :=
       match OutputTie.outputOf (skip == "1") st.taps c e h ((inp.splitOn "|").map parseBits) recvd lam with
       | .ok bits => (st, "ok " ++ showBits bits)
       | .err k r => (st, s!"err {k} {r}")
+    | _, _, _, _, _ => (st, "bad-op")
+  | ["chunkiter", total, chunk] =>
+    -- the code's own `chunk_size_iter` (translator output)  (C01 / C19)
+    match total.toNat?, chunk.toNat? with
+    | some t, some c => (st, "chunkiter " ++ showNats (Gen.chunkSizeIter t c))
+    | _, _ => (st, "bad-op")
+  | "vargs" :: rest =>
+    -- `protocol.rs::validate` on (own index, input length, evaluator, output list) for the current circuit  (C18)
+    match st.circ, (kv rest "pown").bind (·.toNat?), (kv rest "len").bind (·.toNat?), (kv rest "peval").bind (·.toNat?), (kv rest "pout").bind parseNats with
+    | some c, some o, some l, some e, some po => (st, match validateArgs c o l e po with | .ok _ => "ok" | .error err => "err " ++ err.cls)
     | _, _, _, _, _ => (st, "bad-op")
   | which :: rest@(_ :: _) =>
     if which != "online" && which != "online2" then (st, "bad-op") else
